@@ -4,6 +4,7 @@ package ice
 
 import (
 	"github.com/pion/stun/v3"
+	"time"
 )
 
 func init() {
@@ -176,6 +177,8 @@ func verifC03Tick() {
 		p.state = CandidatePairState(verifInt(1, 4))
 		p.nominated = verifBool()
 		p.bindingRequestCount = uint16(verifInt(0, 9))
+		p.nominateOnBindingSuccess = verifBool()
+		p.renominateOnBindingSuccess = verifBool()
 	}
 	for _, l := range w.locals {
 		l.priorityOverride = verifU32()
@@ -186,8 +189,17 @@ func verifC03Tick() {
 		sp := a.checklist[selIdx]
 		verifAssume(verifAnd(sp.state == CandidatePairStateSucceeded, sp.nominated))
 		a.selectedPair.Store(sp)
+		// connected or already disconnected; the peer silent for up to 20 s
+		// (below disconnected+failed = 30 s), the last packet sent up to 5 s ago
 		a.connectionState = ConnectionStateConnected
-		verifBaseOf(sp.Remote).setLastReceived(verifNow())
+		if verifChoice(2) == 1 {
+			a.connectionState = ConnectionStateDisconnected
+			verifReach("disconnected")
+		}
+		now := verifNow()
+		verifBaseOf(sp.Remote).setLastReceived(now.Add(-time.Duration(verifInt(0, int(20*time.Second)))))
+		verifBaseOf(sp.Local).setLastSent(now.Add(-time.Duration(verifInt(0, int(5*time.Second)))))
+		verifAssume(verifBaseOf(sp.Remote).lastReceived.Load() != 0)
 	}
 	before := w.snap()
 	verifStepBegin()
